@@ -347,8 +347,16 @@ def check_join(r) -> list[Fail]:
         if A.n_bonds:
             A.bonds[0].attrib["edited"] = True
         A.charge = A.charge + 1
+        # ... and A loses one of its atoms (not the attachment point, not its anchor): every later atom moves up one place
+        ap_atom = A.atoms[apsA[0]]
+        anchor_ = next(A.connected_atoms(ap_atom))
+        victims = [x for x in A.atoms if x is not ap_atom and x is not anchor_ and not x.is_attachment_point]
+        apA2 = apsA[0]
+        if victims and r.get("again_del", True):
+            A.del_atom(victims[0])
+            apA2 = A.atoms.index(ap_atom)
         n0 = len(fails)
-        check_one_join(A, B, apsA[0], apsB[0], _kw(r), cls, "join[again after in-place edits of A and B]", fails)
+        check_one_join(A, B, apA2, apsB[0], _kw(r), cls, "join[again after in-place edits of A and B]", fails)
         for f_ in fails[n0:]:
             f_.sig += ":second-join-after-in-place-edit"
     return fails
